@@ -35,6 +35,47 @@ def run(ctx):
     _r4(ctx)
     _r5(ctx)
     _r7(ctx)
+    _r8(ctx)
+
+
+def _r8(ctx):
+    """the fixed-width field writer (chaddr 16, sname 64, file 128): the width it is given is the only size that limits what it
+    copies — every size-limiting call takes the width parameter itself (or output length + width), never width +- k"""
+    P = ctx.P
+    fns = [f for f, sg in P.sigs.items() if f in P.bodies and "dhcp::dhcppkt" in f and sg["inputs"] == ["&[u8]", "usize", "&mut std::vec::Vec<u8>"]]
+    ctx.floor("R8", "fixed-width field writer", len(fns), 1)
+    LIMIT = ("take", "resize", "resize_with", "truncate", "split_at", "chunks", "set_len")
+    for f in fns:
+        b = P.bodies[f]
+        ctx.saw(b)
+        T = terms(P, b)
+        n = 0
+        for bb, tm in b.calls():
+            nme = callee_name(tm) or ""
+            last = nme.rsplit("::", 1)[-1]
+            args = [norm(x) for x in T.call_args(bb)]
+            sizes = []
+            if last in LIMIT and len(args) >= 2:
+                sizes.append(args[1])
+            if oblig_index(nme) and len(args) == 2:
+                sizes.extend(v for _, v in (args[1][3] if args[1][0] == "agg" else ()))
+            for sz in sizes:
+                n += 1
+                exact = sz == ("param", 2)
+                if not exact and sz[0] == "field" and sz[2] == "0":
+                    sz = norm(sz[1])
+                if not exact and sz[0] == "bin" and sz[1].startswith("Add"):
+                    x, y = norm(sz[2]), norm(sz[3])
+                    exact = (x == ("param", 2) and y[0] == "call" and str(y[1]).endswith("::len")) or (y == ("param", 2) and x[0] == "call" and str(x[1]).endswith("::len"))
+                ctx.check(exact, "R8", "fixed-field:size-limit-is-the-width:%s" % last, ctx.where(b, tm["sp"]),
+                          "a fixed BOOTP field of width l carries up to l octets of the value: the count given to %s must be l itself (is %s); "
+                          "with l - 1 a value that fills the field loses its last octet" % (last, show(sz)[:80]))
+        ctx.floor("R8", "size-limiting calls in the fixed-width writer", n, 1)
+
+
+def oblig_index(name):
+    from ..oblig import INDEX_FNS
+    return bool(INDEX_FNS.search(name))
 
 
 def _r3(ctx):
